@@ -92,6 +92,34 @@ def memory_and_load(ctx, py, w, arms, mem_py=None, mem_rs=None):
                py.where(w.stateful.module, st.node))
 
 
+def claim_queue(ctx, py, w):
+    """the machine keeps the open claims on a stack and a proof-phase Publish pops THE TOP one and compares it; claims are
+    published in reverse, so the top is the first declared claim still open.  The tracker simulates that only if publish_proof
+    compares the proved conclusion with the HEAD of its claim list (==) and drops exactly that head on every accepting path."""
+    from ..core.pyeval import PyEval
+    fn = w.stateful.methods.get('publish_proof')
+    ctx.require(fn is not None, 'anchor vanished: StatefulInterpreter.publish_proof')
+    where = py.where(w.stateful.module, fn)
+    SELF = ('param', 'self')
+    PROVED = ('param', fn.args.args[1].arg)
+    CL = ('attr', SELF, 'claims')
+    heads = (('item', CL, 0), ('sub', CL, ('const', 0)))
+    n = 0
+    for p in PyEval().paths(fn):
+        if p.end[0] == 'raise':
+            continue
+        n += 1
+        compared = any(b is True and c[0] == 'cmp' and c[1] == '==' and {c[2], c[3]} in
+                       [{('attr', h, 'pattern'), ('attr', PROVED, 'conclusion')} for h in heads] for c, b in p.conds)
+        stores = [e.value[2] for e in p.events if e.kind == 'setattr' and e.value[0] == SELF and e.value[1] == 'claims']
+        tail_ok = len(stores) == 1 and stores[0] in (('rest', CL, 1, 0), ('sub', CL, ('slice', ('const', 1), None, None)))
+        ctx.ob('claim-queue', f'publish_proof/path{n}', compared and tail_ok,
+               'StatefulInterpreter.publish_proof must compare the proved conclusion with the FIRST open claim (the one the machine pops) '
+               'and drop exactly that one; ' + ('' if compared else 'no accepting-path test `proved.conclusion == claims[0].pattern`; ')
+               + ('' if tail_ok else f'the claim list becomes {[show(x)[:60] for x in stores]} instead of its tail'), where)
+    ctx.floor('claim-queue', 1)
+
+
 def run(ctx):
     py = PyRepo.get()
     r = Rust.get()
@@ -220,6 +248,10 @@ def run(ctx):
         c02.method_row(ctx, w, meth, arms, py_ops, dec)
     ctx.floor('effect', 24)
     ctx.floor('phase-reset', 2)
+    claim_queue(ctx, py, w)
+    # the generator applies Generalization under ITS freshness judgement, the machine under the documented one (shared with C02)
+    from .c02 import judgement_agreement
+    judgement_agreement(ctx, py)
     ctx.floor('load-address', 2)
     ctx.explanation = (
         'For every interpreter call the tracker\'s effect (number and Term kind of pops, pushes, memory appends, claim consumption; '
